@@ -14,10 +14,14 @@ LEVEL_TEXT = ("Bounded contract checking of the statement on the real Pipeline: 
               "return the value of a reference evaluator written from the statement and invoke exactly the needed "
               "functions once each after their dependencies. The call path (PipeFunc.__call__, Pipeline._run, "
               "_get_func_args) manipulates networkx graphs, weak references and cached properties, which the proof rung "
-              "cannot model - hence 'exploration'; no obligation is counted as proved for this property.")
+              "cannot model; the property itself is decided on the bounded rung. Proved part (pyvc, listed under "
+              "functions_under_contract): the two leaf helpers on that path, at_least_tuple and _default_output_picker "
+              "(the i-th element of a tuple result is handed out for the i-th output name). Category 'other' = a few "
+              "discharged leaf contracts + bounded checking of the statement; it is not a proof of C02.")
 LEVEL_NOTE = ("Bounds: 1..4 functions (quick 1..3 for the all-orders part), <=3 parameters each, roots {x,y,z}; values are "
               "tagging strings. Trusted: the reference evaluator rtc/dag.py::refeval; networkx.")
-TECHNIQUE = "bounded contract checking of the statement-level contract (tagging bodies + reference evaluator); no deductive part"
+TECHNIQUE = ("bounded contract checking of the statement-level contract (tagging bodies + reference evaluator); leaf "
+             "helpers at_least_tuple/_default_output_picker discharged by z3")
 EXPLANATION = LEVEL_TEXT
 RULE = ("random DAGs from rtc.dag.gen_dag; per DAG all outputs x all arg_combinations x all listing orders (n<=3) x "
         "{pipeline(), run, func}; distinct = distinct (DAG, order, output, combination); non-trivial = the evaluation "
